@@ -26,7 +26,10 @@ CONSTANTS MaxNodes,     \* collection nodes besides the root sequence
           MapTags,      \* subset of {"map","set"}
           SeqTags,      \* subset of {"seq","omap","pairs"}
           Modes,        \* subset of {"A","B","C"}: how the root lists the nodes
-          AllowSelf     \* BOOLEAN: a mapping may merge itself (&a {<<: *a})
+          AllowSelf,    \* BOOLEAN: a mapping may merge itself (&a {<<: *a})
+          MergeShape    \* "any": every entry may hold a scalar or a reference; "refs": nesting only through merge keys
+                        \* (plain keys hold scalars, merge keys and sequence elements hold references) - the shape of
+                        \* documents whose mappings combine several merge keys over shared sources
 
 VARIABLES nodes, mode, top, hval, lval, lord
 vars == <<nodes, mode, top, hval, lval, lord>>
@@ -97,6 +100,11 @@ HMergeClosureOk(h, n, seen) ==
 Sc(x)  == [t |-> "s", ord |-> TRUE, e |-> <<x>>]
 EV     == [t |-> "ERR", ord |-> TRUE, e |-> <<>>]
 IsErr(x) == x.t = "ERR"
+\* a "soft" error: the statement allows either a constructor error or a value here (an !!omap / !!pairs entry written
+\* with a merge key whose meaning is a single pair: the rules give it a meaning, the implementation rejects it)
+EVS    == [t |-> "ERR", ord |-> FALSE, e |-> <<>>]
+Hard(x) == IsErr(x) /\ x.ord
+ErrOf(vs) == IF \E x \in vs : Hard(x) THEN EV ELSE EVS
 
 RECURSIVE HVal(_, _)
 HValOf(h, v) == IF IsRef(v) THEN HVal(h, v.id) ELSE Sc(v.s)
@@ -108,24 +116,33 @@ HVal(h, n) ==
               ord == MergeVals(h, n) = <<>>
               seqk == IF ord THEN FirstOcc(Own(h, n), <<>>) ELSE Sorted(ks)
               vs  == [j \in DOMAIN seqk |-> HValOf(h, HLook(h, n, seqk[j], {}))]
-          IN  IF "U" \in ks \/ \E v \in HAllVals(h, n, {}) : IsErr(HValOf(h, v)) THEN EV
+          IN  IF "U" \in ks THEN EV
+              ELSE IF \E v \in HAllVals(h, n, {}) : IsErr(HValOf(h, v)) THEN ErrOf({HValOf(h, v) : v \in HAllVals(h, n, {})})
               ELSE IF h[n].tag = "set" THEN [t |-> "set", ord |-> FALSE, e |-> [j \in DOMAIN seqk |-> <<seqk[j], Sc("-")>>]]
               ELSE [t |-> "map", ord |-> ord, e |-> [j \in DOMAIN seqk |-> <<seqk[j], vs[j]>>]]
   ELSE
      IF h[n].tag = "seq" THEN
         LET vs == [j \in DOMAIN h[n].e |-> HValOf(h, h[n].e[j])]
-        IN  IF \E j \in DOMAIN vs : IsErr(vs[j]) THEN EV ELSE [t |-> "seq", ord |-> TRUE, e |-> vs]
+        IN  IF \E j \in DOMAIN vs : IsErr(vs[j]) THEN ErrOf(Range(vs)) ELSE [t |-> "seq", ord |-> TRUE, e |-> vs]
      ELSE IF h[n].tag \in {"omap", "pairs"} THEN                    \* a sequence of single-pair mappings
-        IF \E j \in DOMAIN h[n].e : ~IsRef(h[n].e[j]) \/ ~IsMap(h, h[n].e[j].id) \/ Len(h[h[n].e[j].id].e) # 1
+        \* an entry without merge keys must be a mapping with exactly one pair; an entry written with merge keys is
+        \* ill-shaped unless its meaning (own keys plus merged ones) is exactly one pair
+        LET HasMerge(i) == \E en \in Range(h[i].e) : en.k = "M"
+            IllShaped(i) == IF HasMerge(i) THEN ~HMergeClosureOk(h, i, {}) \/ Cardinality(HKeys(h, i, {})) # 1
+                            ELSE Len(h[i].e) # 1
+        IN
+        IF \E j \in DOMAIN h[n].e : ~IsRef(h[n].e[j]) \/ ~IsMap(h, h[n].e[j].id) \/ IllShaped(h[n].e[j].id)
         THEN EV
+        ELSE IF \E j \in DOMAIN h[n].e : HasMerge(h[n].e[j].id) THEN EVS
         ELSE LET ps == [j \in DOMAIN h[n].e |-> h[h[n].e[j].id].e[1]]
                  vs == [j \in DOMAIN ps |-> HValOf(h, ps[j].v)]
-             IN  IF \E j \in DOMAIN vs : IsErr(vs[j]) THEN EV
+             IN  IF \E j \in DOMAIN vs : IsErr(vs[j]) THEN ErrOf(Range(vs))
                  ELSE [t |-> "pairs", ord |-> TRUE, e |-> [j \in DOMAIN ps |-> <<KeyClass(ps[j].k), vs[j]>>]]
      ELSE EV                                                         \* !!set on a sequence node
 
 HDoc(h, tp) == LET vs == [j \in DOMAIN tp |-> HVal(h, tp[j])]
-               IN  IF \E j \in DOMAIN vs : IsErr(vs[j]) THEN [err |-> TRUE, v |-> <<>>] ELSE [err |-> FALSE, v |-> vs]
+               IN  IF \E j \in DOMAIN vs : IsErr(vs[j]) THEN [err |-> TRUE, v |-> <<>>, soft |-> ~\E j \in DOMAIN vs : Hard(vs[j])]
+                   ELSE [err |-> FALSE, v |-> vs, soft |-> FALSE]
 
 (***************************************************************************)
 (* L : what constructor.py does - flatten_mapping rewrites node.value in   *)
@@ -179,6 +196,7 @@ LRun(h, q, done, ent) ==
             LRun(h, AddNew(Tail(q), done \cup {n}, RefsOfElems(h[n].e)), done \cup {n}, ent)
     ELSE IF h[n].tag \in {"omap", "pairs"} THEN
             IF \E j \in DOMAIN h[n].e : ~IsRef(h[n].e[j]) \/ ~IsMap(h, h[n].e[j].id) \/ Len(h[h[n].e[j].id].e) # 1
+                                          \/ h[h[n].e[j].id].e[1].k = "M"
             THEN [err |-> TRUE, ent |-> ent, h |-> h]
             ELSE LET ps == [j \in DOMAIN h[n].e |-> h[h[n].e[j].id].e[1]] IN
                  LRun(h, AddNew(Tail(q), done \cup {n}, RefsOfEntries(ps)), done \cup {n}, [ent EXCEPT ![n] = ps])
@@ -226,8 +244,10 @@ SameDoc(l, hh) == /\ l.err = hh.err
 (* generation: one node per step                                           *)
 (***************************************************************************)
 ValsFor(i, selfOk) == {S(x) : x \in Vals} \cup {N(j) : j \in 1 .. i - 1} \cup (IF selfOk THEN {N(i)} ELSE {})
-EntrySet(i) == {[k |-> k, v |-> v] : k \in Keys \ {"M"}, v \in ValsFor(i, FALSE)}
-               \cup {[k |-> "M", v |-> v] : v \in (IF "M" \in Keys THEN ValsFor(i, AllowSelf) ELSE {})}
+Scalars(vs) == {v \in vs : ~IsRef(v)}
+Refs(vs) == {v \in vs : IsRef(v)}
+EntrySet(i) == {[k |-> k, v |-> v] : k \in Keys \ {"M"}, v \in (IF MergeShape = "refs" THEN Scalars(ValsFor(i, FALSE)) ELSE ValsFor(i, FALSE))}
+               \cup {[k |-> "M", v |-> v] : v \in (IF "M" \in Keys THEN (IF MergeShape = "refs" THEN Refs(ValsFor(i, AllowSelf)) ELSE ValsFor(i, AllowSelf)) ELSE {})}
 SeqsUpTo(Sx, n) == UNION {[1 .. m -> Sx] : m \in 0 .. n}
 
 Referenced(h) == {en.v.id : en \in {x \in UNION {Range(h[i].e) : i \in {j \in DOMAIN h : h[j].t = "map"}} : IsRef(x.v)}}
@@ -236,17 +256,17 @@ TopOf(h, m) == LET unref == {i \in DOMAIN h : \A j \in DOMAIN h \ {i} : i \notin
                    asc == SelectSeq([i \in DOMAIN h |-> i], LAMBDA i : m = "B" \/ i \in unref)
                IN  IF m = "C" THEN Reverse(asc) ELSE asc
 
-\* an omap/pairs element is a mapping without merge keys (domain of the property, see DESIGN 5.0)
+\* (omap/pairs elements may be written with merge keys; H above says what that means)
 ElemOk(h, tag, v) == IF tag \notin {"omap", "pairs"} THEN TRUE
                      ELSE IF ~IsRef(v) THEN TRUE
                      ELSE IF ~IsMap(h, v.id) THEN TRUE
-                     ELSE \A en \in Range(h[v.id].e) : en.k # "M"
+                     ELSE TRUE
 
 AddMap == /\ Len(nodes) < MaxNodes
           /\ \E tag \in MapTags, es \in SeqsUpTo(EntrySet(Len(nodes) + 1), MaxEntries) :
                nodes' = Append(nodes, [t |-> "map", tag |-> tag, e |-> es])
 AddSeq == /\ Len(nodes) < MaxNodes
-          /\ \E tag \in SeqTags, es \in SeqsUpTo(ValsFor(Len(nodes) + 1, FALSE), MaxElems) :
+          /\ \E tag \in SeqTags, es \in SeqsUpTo(IF MergeShape = "refs" THEN Refs(ValsFor(Len(nodes) + 1, FALSE)) ELSE ValsFor(Len(nodes) + 1, FALSE), MaxElems) :
                /\ \A j \in DOMAIN es : ElemOk(nodes, tag, es[j])
                /\ nodes' = Append(nodes, [t |-> "seq", tag |-> tag, e |-> es])
 
@@ -257,7 +277,7 @@ Compute == /\ top' = TopOf(nodes', mode)
            /\ UNCHANGED mode
 
 Init == /\ nodes = <<>> /\ mode \in Modes /\ top = <<>> /\ lord = TRUE
-        /\ hval = [err |-> FALSE, v |-> <<>>] /\ lval = [err |-> FALSE, v |-> <<>>]
+        /\ hval = [err |-> FALSE, v |-> <<>>, soft |-> FALSE] /\ lval = [err |-> FALSE, v |-> <<>>]
 Next == (AddMap \/ AddSeq) /\ Compute
 Spec == Init /\ [][Next]_vars
 
